@@ -451,6 +451,7 @@ FAULT_QUICK = [
     # C++14: clean-up on throw of the pre-C++17 emulations of the memory algorithms as the containers use them
     fault_cfg("s", 4, "NTR", "basic", "uint32_t", std="c++14"),
     fault_cfg("v", 0, "TR", "realloc", "uint32_t", std="c++14"),
+    fault_cfg("s", 4, "NTR", "exact", "uint32_t", std="c++20"),  # C++20: concepts-based dispatch (iterator categories of move iterators and views differ)
 ]
 FAULT_THOROUGH = [
     fault_cfg("v", 0, "NTR", "exact", "int16_t"),
